@@ -48,3 +48,9 @@ Print Assumptions c02_operations_act_on_classes.
 From SymfcG Require Import ShapesSpg ShapesCoset ShapesO1.
 Theorem c02_recorded_sources_in_force : ShapesSpg_as_recorded = true /\ ShapesCoset_as_recorded = true /\ ShapesO1_as_recorded = true.
 Proof. repeat split; reflexivity. Qed.
+
+(** The remaining source this property rests on is the recorded one (the basis-set classes of orders 2-4): whole-function match,
+    regenerated on every run (closes the gap between "the expected statements are present" and "nothing else was added"). *)
+From SymfcG Require Import ShapesBasis.
+Theorem c02_recorded_sources2_in_force : ShapesBasis_as_recorded = true.
+Proof. repeat split; reflexivity. Qed.
